@@ -183,8 +183,24 @@ def passthrough_probe(sh, ctor, leaf, src, T):
             sh.violation("not-passthrough", annotation=src, direction=direction, got=short(r, 200))
 
 
+WARMERS = None
+
+
+def warm():
+    """The first build of T happens under caches warmed by unrelated annotations (the rebuild after clearing is cold)."""
+    global WARMERS
+    if WARMERS is None:
+        ns = namespace()
+        WARMERS = [int, str, list[int], dict[str, int], tuple[int, str], typing.Optional[int], ns.D, set[str], typing.List[str], ns.NT]
+    for w in WARMERS:
+        with quiet():
+            typelib.unmarshaller(w)
+            typelib.marshaller(w)
+
+
 def check(sh, src, T, steps, leaf=None, ctor=None):
     sh.eval(src)
+    warm()
     steps.n = 0
     steps.on = True
     built = {}
